@@ -30,7 +30,7 @@ def parse_type(node):
     if isinstance(node, ast.Call) and isinstance(node.func, ast.Name):
         args = []
         for a in node.args:
-            if isinstance(a, ast.Constant) and isinstance(a.value, str):
+            if isinstance(a, ast.Constant) and isinstance(a.value, (str, int)):
                 args.append(a.value)
             else:
                 args.append(parse_type(a))
